@@ -8,7 +8,7 @@
    Model/Union.v (copyFile / copyToLayer); [now] = time.Now() during the call, [dur] = the cache duration. *)
 From AF Require Import Lib.Bytes Lib.Path Lib.Ops Gen.Consts Model.MemFile Model.MemFs Model.Union Model.Cow
   Model.Cache Model.Stack Model.WfOps Proofs.MemFsBasics Proofs.MemFsWF Proofs.MemFsStep Proofs.MemFsInv Proofs.CacheProof
-  Proofs.CacheReady.
+  Proofs.CacheReady Proofs.CacheInv Proofs.CacheInvMain.
 Local Open Scope Z_scope.
 
 (* (a) cacheStatus classifies by exactly the three rules — over ARBITRARY inner filesystems.
@@ -217,6 +217,18 @@ Theorem C10_first_read_total_wf_base :
     ndir nl = false /\ ndata nl = ndata nb /\ nmtime nl = nmtime nb /\ fs_view sb' = fs_view sb.
 Proof. exact first_read_total_wf_base. Qed.
 Print Assumptions C10_first_read_total_wf_base.
+
+(* inside a cache whose modifications all went through it (the invariant CInv of C11: Props/C11.v, holds after
+   every well-formed sequence of calls through the cache) every hypothesis on the layer is discharged: the
+   first read of ANY regular file of the base succeeds *)
+Theorem C10_first_read_in_cache :
+  forall (sb sl : mst) (tbl : list chandle) (name : str) (fb : nat) (nb : node),
+  CInv (sb, sl, tbl) -> lookup sb (normalize_path name) = Some fb -> get_node sb fb = Some nb -> ndir nb = false ->
+  exists sb' sl' fl nl, cache_copy_to_layer m_step m_step sb sl name = (sb', sl', None) /\
+    lookup sl' (normalize_path name) = Some fl /\ get_node sl' fl = Some nl /\
+    ndir nl = false /\ ndata nl = ndata nb /\ nmtime nl = nmtime nb /\ fs_view sb' = fs_view sb.
+Proof. exact first_read_cinv. Qed.
+Print Assumptions C10_first_read_in_cache.
 
 (* the states the theorems quantify over: every state of a MemMapFs reachable from the empty one by a
    well-formed program satisfies WF *)
